@@ -1,5 +1,5 @@
 """Property -> rules.  Each entry: run(prog, tier) -> (obligations, floors, meta)."""
-from .rules import bounds, arith, index, numctor, cmp, jsonw, memo, strict, lookup, tls, imports, hashord, capi, tables, ops, registry, printf, recur, trace, fmtcover, fmttables, units, fmttokens, casts
+from .rules import bounds, arith, index, numctor, cmp, jsonw, memo, strict, lookup, tls, imports, hashord, capi, tables, ops, registry, printf, recur, trace, fmtcover, fmttables, units, fmttokens, casts, charb
 
 COMMON_TRUST = [
     "rustc nightly HIR/MIR construction, trait resolution and const evaluation",
@@ -10,7 +10,7 @@ COMMON_TRUST = [
 
 
 def c08(prog, tier):
-    obs, floors, m = bounds.run(prog)
+    obs, floors, m = merge(bounds.run(prog), bounds.run_cheap(prog))
     meta = {
         "level": "other",
         "explanation": (
@@ -72,6 +72,7 @@ def c04(prog, tier):
         index.run(prog, crate_is(*EVAL_CRATES), floor=25),
         recur.run_frame(prog, crate_is(*EVAL_CRATES)),
         recur.run_views(prog),
+        charb.run(prog, crate_is(*EVAL_CRATES), floor=25),
         only(recur.run(prog), ("in_frame:guards", "in_description_frame:guards", "ensure_sufficient_stack:guards")),
         # "after any error the same thread evaluates further programs normally"
         only(tls.run(prog), ("check_depth", "run_assertions", "<StackDepthGuard", "StateEnterGuard", "jrsonnet_evaluator::in_")),
@@ -83,13 +84,21 @@ def c04(prog, tier):
         "explanation": (
             "Static (MIR) decision of necessary conditions of C04 'never a crash': (1) no arithmetic trap of an armed "
             "class and no slice-index trap is reachable without a dominating guard in the parser/evaluator/stdlib/CLI/C-API "
-            "crates. NOT decided: panics inside dependencies, allocation failure, 64-bit length additions, and that every "
-            "unwrap/expect is dead (inventoried only)."),
+            "crates (R-ARITH, R-INDEX). (2) Recursion: a function that calls itself does so only from a closure handed to in_frame / "
+            "in_description_frame / ensure_sufficient_stack, or is reviewed as structurally bounded (R-FRAME); array view accessors that "
+            "forward to their inner array sit behind such a guard (R-FRAME view); the three guard functions reach check_depth / "
+            "stacker::maybe_grow before running the closure (R-RECUR). R-CHARB: every site that cuts a str (split_at, range indexing, "
+            "String::truncate/insert/drain..) takes its offsets from a boundary producer of the same text, is guarded by is_char_boundary, "
+            "or is a reviewed scanner idiom. Data- or source-depth recursion without a guard is listed as a "
+            "known finding per function. (3) 'After any error the same thread evaluates further programs normally': the frame counter, "
+            "RUNNING_ASSERTIONS, FileData.evaluating and the memo cells are restored / stored on every exit (R-TLS, R-IMPORT, R-MEMO). "
+            "NOT decided: panics inside dependencies, allocation failure, 64-bit length additions, destructor recursion, and that every "
+            "unwrap/expect is dead."),
         "rule": ARITH_TEXT,
-        "rules": ["R-ARITH", "R-INDEX"],
+        "rules": ["R-ARITH", "R-INDEX", "R-FRAME", "R-RECUR", "R-CHARB", "R-TLS", "R-IMPORT", "R-MEMO"],
         "analysed": an,
-        "decided": "absence of unguarded arithmetic/index traps of the armed classes",
-        "not_decided": "dependency panics; allocation failure; stack exhaustion by data depth (see DESIGN)",
+        "decided": "absence of unguarded arithmetic/index traps of the armed classes; recursion guarded or listed; interpreter state restored after errors",
+        "not_decided": "dependency panics; allocation failure; destructor recursion on deep values; unwrap/expect reachability",
         "trusted_base": COMMON_TRUST + ["tables/arith_reviewed.json and tables/index_reviewed.json: hand-reviewed entries with one reason each"],
         "assumptions": ["64-bit additions/multiplications of lengths do not overflow (memory-bounded)"],
     }
@@ -124,15 +133,17 @@ def c12(prog, tier):
 
 def c20(prog, tier):
     obs, floors, an = merge(arith.run(prog, crate_is(*FMT_CRATES), floor=12), index.run(prog, crate_is(*FMT_CRATES), floor=4),
-                            recur.run_frame(prog, crate_is("jrsonnet_rowan_parser", "jrsonnet_formatter", "jrsonnet_fmt")))
+                            recur.run_frame(prog, crate_is("jrsonnet_rowan_parser", "jrsonnet_formatter", "jrsonnet_fmt")),
+                            charb.run(prog, crate_is("jrsonnet_rowan_parser", "jrsonnet_formatter", "jrsonnet_fmt"), floor=5))
     meta = {
         "level": "other",
         "explanation": (
             "Static (MIR) decision of the 'never crashes' clause of C20 for the syntax-tree parser, the formatter and "
-            "jrsonnet-fmt: no unguarded arithmetic or index trap of the armed classes. Idempotence (a fixed point of the "
-            "layout solver) is NOT decidable statically and is not claimed."),
+            "jrsonnet-fmt: no unguarded arithmetic or index trap of the armed classes; self-recursive functions of parser and printer are "
+            "guarded or listed as known findings (R-FRAME). Idempotence (a fixed point of the layout solver) is NOT decidable statically "
+            "and is not claimed."),
         "rule": ARITH_TEXT,
-        "rules": ["R-ARITH", "R-INDEX"],
+        "rules": ["R-ARITH", "R-INDEX", "R-FRAME"],
         "analysed": an,
         "decided": "no arithmetic/index trap in rowan-parser, formatter, jrsonnet-fmt, lexer",
         "not_decided": "idempotence; panics inside dprint-core/rowan/hi-doc",
@@ -193,7 +204,8 @@ def literal_decoding(prog):
 
 
 def c01(prog, tier):
-    obs, floors, an = merge(ops.run(prog), tables.run(prog, which=("ir",)), only(strict.run(prog), ("evaluate:exhaustive", "evaluate_binary_op_special")),
+    # "the outcome is the same whichever of the two bundled source parsers is selected": both evaluator parsers' tables
+    obs, floors, an = merge(ops.run(prog), tables.run(prog, which=("ir", "peg")), only(strict.run(prog), ("evaluate:exhaustive", "evaluate_binary_op_special")),
                             only(cmp.run(prog), ("relational:", "bitwise:", "shift-negative:")))
     meta = {
         "level": "other",
@@ -350,7 +362,7 @@ def c11(prog, tier):
 def c13(prog, tier):
     obs, floors, an = merge(registry.run(prog, C13_NAMES), extras(prog, ("std.get",)),
                             only(hashord.run(prog), ("jrsonnet_evaluator::obj::", "<jrsonnet_evaluator::obj::")),
-                            only(lookup.run(prog), ("has_field", "field_visibility_idx", "has_field_include_hidden_idx", "equals:fields")),
+                            lookup.run(prog),
                             only(cmp.run(prog), ("primitive_equals",)))
     meta = stdlib_meta("C13", "Also: field names come out of fields_ex sorted by content (R-HASHORD); objectHas/objectHasAll/objectHasEx/`in` select the visible / "
                        "include-hidden walker as documented and both walkers follow the skip protocol (R-LOOKUP); objectRemoveKey has no visible-only shortcut; "
